@@ -72,6 +72,11 @@ def registries():
             snap[name] = [(k, id(v)) for k, v in d.items()] if hasattr(d, "items") else repr(d)
     snap["function_mode_stack"] = [id(m) for m in torch.overrides._get_current_function_mode_stack()]
     snap["ext_enabled"] = qops._ext_enabled
+    # process-wide torch state that a side-effect free call must leave alone
+    snap["grad_enabled"] = torch.is_grad_enabled()
+    snap["default_dtype"] = str(torch.get_default_dtype())
+    snap["rng_state"] = hash(torch.get_rng_state().numpy().tobytes())
+    snap["dispatch_mode_stack"] = len(torch.utils._python_dispatch._get_current_dispatch_mode_stack())
     return snap
 
 
@@ -111,6 +116,7 @@ def cleanup_registries(before):
 def pure_forward(ctx, model, x, sig, detail):
     """Outside a context: inference changes nothing and is repeatable bit for bit."""
     ctx.count("purity_checks")
+    g0 = registries()
     s0 = fp.state_fp(model)
     xb = fp.plain_bytes(x)
     # every submodule must leave the tensors it is given untouched (a layer that scales its input in place corrupts
@@ -141,6 +147,10 @@ def pure_forward(ctx, model, x, sig, detail):
     with torch.no_grad():
         s1 = fp.state_fp(model)
         o2 = lifecycle.out_fp(model(x))
+    g1 = registries()
+    if g1 != g0:
+        ctx.violation(dict(sig, kind="inference_changed_global_state", what="+".join(k for k in g0 if g0[k] != g1.get(k))[:60]),
+                      detail)
     if fp.plain_bytes(x) != xb:
         ctx.violation(dict(sig, kind="inference_modified_its_input"), detail)
     if s1 != s0:
@@ -187,6 +197,7 @@ def library_purity(ctx, oq, r, wd, sig):
 
     for call in ("quantize_weight", "quantize_activation", "quantize+freeze", "disable_extensions"):
         ctx.count("library_purity_checks")
+        g0 = registries()
         try:
             if call == "quantize_weight":
                 qt = ["qint8", "qfloat8", "qint4", "qint2"][r.integers(4)]
@@ -231,6 +242,12 @@ def library_purity(ctx, oq, r, wd, sig):
         if not ok:
             ctx.violation(dict(sig, kind="library_call_modified_its_operands" if call != "disable_extensions" else
                                "extensions_left_disabled", call=call), {})
+        g1 = registries()
+        if call == "quantize+freeze":
+            g0.pop("rng_state"), g1.pop("rng_state")  # building the float model draws its initial weights
+        if g1 != g0:
+            ctx.violation(dict(sig, kind="library_call_changed_global_state", call=call,
+                               what="+".join(k for k in g0 if g0[k] != g1.get(k))[:60]), {})
 
 
 def build_model(oq, r, wd, aq):
